@@ -155,10 +155,66 @@ def _prim_invert(a, b, si, kind, mi):
     back = inv.apply(res.doc)
     ok = back.failed is None and back.doc is not None and back.doc.eq(doc) and back.doc.attrs == doc.attrs
     why = "inverted %s does not restore the document" % type(step).__name__
+    if not ok and kind == 3 and _irreversible_eviction(C, doc.node_at(a), C.marks[mi]) \
+            and rt.known_mode("C04-add-node-mark-irreversible-eviction"):
+        # listed open finding; what is still demanded: the inverse applies and changes nothing but that node's marks
+        from engine.oracle.tokens import doc_tokens
+        bt = doc_tokens(back.doc) if back.failed is None else None
+        a = rt.pick(a, 0, C.size)
+        same = bt is not None and len(bt) == len(C.tok) and bt[a][:3] == C.tok[a][:3] \
+            and all(bt[i] == C.tok[i] for i in range(len(bt)) if i != a)
+        return rt.fin(same, why + " (beyond the listed mode)")
     if ok:
         from engine.oracle.tokens import doc_tokens
         ok = doc_tokens(back.doc) == C.tok
     return rt.fin(ok, why)
+
+
+def ob_markup_leaf(a: int, ti: int) -> bool:
+    """post: _"""
+    return rt.run(_markup_leaf, a, ti)
+
+
+def _markup_leaf(a, ti):
+    """set_node_markup towards a LEAF type (e.g. an empty paragraph turned into a horizontal rule): recorded, replayable,
+    undoable.  (The operation catalogue of ops.py only draws textblock types for set_node_markup.)"""
+    C = c01_steps.C
+    leafs = [t for t in C.schema.nodes.values() if t.is_leaf and not t.is_text and not t.has_required_attrs()]
+    if not (0 <= a <= C.size and 0 <= ti < len(leafs)) or C.is_split(a):
+        return rt.SKIP
+    ti = rt.pick(ti, 0, len(leafs) - 1)
+    tr = Transform(C.doc)
+    raised = None
+    try:
+        tr.set_node_markup(a, leafs[ti], None)
+    except ValueError as e:
+        raised = e
+    a = rt.pick(a, 0, C.size)
+    w = tlib.check_inv(tr, C.doc)
+    if w is not None or raised is not None:
+        return rt.fin(w is None, w)
+    w = tlib.check_undo(tr, 0)
+    node = C.doc.node_at(a)
+    if w is not None and node is not None and not node.is_leaf and node.content.size == 0 \
+            and rt.known_mode("C04-set-node-markup-to-leaf-not-undoable"):
+        return rt.fin(True)        # listed open finding; alignment and replay were asserted above
+    return rt.fin(w is None, w)
+
+
+def _irreversible_eviction(C, node, mark):
+    """Reference mark algebra (engine/oracle/marks.py), not the code under test: adding `mark` to the node's marks evicts
+    more than one mark, or one mark that cannot evict `mark` in return - no Add/RemoveNodeMarkStep can undo that."""
+    from engine.oracle.marks import ref_add
+    from harness.c13_marks import fm
+    V = C.V
+    rank = V.mark_rank
+    add = lambda ms, m: ref_add(list(ms), m, lambda k: rank[k[0]], lambda x, y: x == y, lambda x, y: V.excludes(x[0], y[0]))  # noqa: E731
+    old = [fm(m) for m in node.marks]
+    new = add(old, fm(mark))
+    gone = [m for m in old if m not in new]
+    if not gone:
+        return False
+    return len(gone) > 1 or add(new, gone[0]) != old
 
 
 def ob_prim_invert_around(a: int, b: int, ga: int, gb: int, ri: int, ins: int) -> bool:
@@ -224,9 +280,9 @@ def obligations(tier, seed):
                 obs.append({"name": "two/%s+%s/%s#%d/a=%d" % (k1, k2, sn, i, aa), "fn": "ob_two",
                             "P": {"schema": sn, "doc": i, "kind": k1, "kind2": k2, "a": aa, "xs": list(range(min(nx, 2)))}, "timeout": T})
     # (schema, doc, kinds): attr steps need a node with attrs, node-mark steps a parent that allows marks on blocks
-    prim = [("list", 1, [0, 2]), ("list", 4, [1]), ("docmarks", 0, [3, 4]), ("docmarks", 2, [3, 4]), ("mx1", 1, [3, 4])] if tier == "quick" else \
+    prim = [("list", 1, [0, 2]), ("list", 4, [1]), ("docmarks", 0, [3, 4]), ("docmarks", 2, [3, 4]), ("mx1", 1, [3, 4]), ("mx2", 5, [3, 4])] if tier == "quick" else \
         [("list", i, [0, 2]) for i in (1, 2, 4, 7, 11)] + [("list", 4, [1]), ("list", 8, [1]), ("strict", 0, [0, 1]), ("table", 0, [0]),
-                                                    ("docmarks", 0, [0, 3, 4]), ("docmarks", 1, [3, 4]), ("mx1", 1, [3, 4]), ("mx5", 2, [3, 4])]
+                                                    ("docmarks", 0, [0, 3, 4]), ("docmarks", 1, [3, 4]), ("mx1", 1, [3, 4]), ("mx5", 2, [3, 4]), ("mx2", 5, [3, 4]), ("mx4", 2, [3, 4]), ("mx6", 2, [3, 4])]
     for (sn, i) in ([("list", 0)] if tier == "quick" else [("list", 0), ("list", 1), ("list", 14), ("strict", 0), ("iso", 1)]):
         C_ = common.load({"schema": sn, "doc": i})
         spans = [(k, C_.pm.match[k] + 1) for k, t in enumerate(C_.tok) if t[0] == "open"][: (3 if tier == "quick" else 6)]
@@ -234,6 +290,8 @@ def obligations(tier, seed):
             for ri in ([0, 1, 2, 5, 9, 10] if tier == "quick" else list(range(13))):
                 obs.append({"name": "prim-invert-around/%s#%d/%d-%d/r%d" % (sn, i, o, c, ri), "fn": "ob_prim_invert_around",
                             "P": {"schema": sn, "doc": i, "prim": True, "a": o, "b": c, "ras": [ri]}, "timeout": T, "allow_vacuous": True})
+    for (sn, i) in ([("list", 9)] if tier == "quick" else [("list", 9), ("list", 5), ("basic", 1), ("strict", 0), ("table", 0)]):
+        obs.append({"name": "markup-leaf/%s#%d" % (sn, i), "fn": "ob_markup_leaf", "P": {"schema": sn, "doc": i, "prim": True}, "timeout": T})
     for (sn, i, pks) in prim:
         p = {"schema": sn, "doc": i, "prim": True}
         if tier == "quick":
